@@ -12,8 +12,6 @@ import (
 	"strings"
 
 	"golang.org/x/tools/go/packages"
-	"golang.org/x/tools/go/ssa"
-	"golang.org/x/tools/go/ssa/ssautil"
 )
 
 const specPkgPath = "github.com/go-openapi/spec"
@@ -28,8 +26,6 @@ type Ctx struct {
 	Info   *types.Info
 	Types  *types.Package
 	Files  []*ast.File
-	Prog   *ssa.Program
-	SSA    *ssa.Package
 	Meta   *metaSchemas
 
 	decls    map[*types.Func]*ast.FuncDecl
@@ -99,15 +95,10 @@ func load(repo, goos, goarch string) (*Ctx, error) {
 	if len(p.Syntax) == 0 {
 		return nil, fmt.Errorf("no files in package")
 	}
-	prog, ssapkgs := ssautil.AllPackages(pkgs, ssa.InstantiateGenerics)
-	prog.Build()
 	c := &Ctx{
 		Repo: repo, Config: goos + "/" + goarch, Pkg: p, Fset: p.Fset, Info: p.TypesInfo, Types: p.Types,
-		Files: p.Syntax, Prog: prog, SSA: ssapkgs[0],
+		Files: p.Syntax,
 		decls: map[*types.Func]*ast.FuncDecl{}, analysed: map[string]bool{},
-	}
-	if c.SSA == nil {
-		return nil, fmt.Errorf("no SSA package")
 	}
 	for _, f := range c.Files {
 		for _, d := range f.Decls {
@@ -218,13 +209,6 @@ func (c *Ctx) decl(f *types.Func) *ast.FuncDecl {
 		return nil
 	}
 	return c.decls[f]
-}
-
-func (c *Ctx) ssaFunc(f *types.Func) *ssa.Function {
-	if f == nil {
-		return nil
-	}
-	return c.Prog.FuncValue(f)
 }
 
 // allFuncDecls returns every function declaration of the package, sorted by position.
